@@ -230,6 +230,8 @@ FILE_KNOWN = {
     "K22": "V2: a comment inside a single-line interpolation swallows code (`args=2` -> `args=1`)",
     "K23": "-s (both): `\"string\": 1, x: [string]: int` - `string:` captures the reference inside the pattern label (the simplifier ignores references inside labels)",
     "K24": "-s (both): `// hdr\\n\\n\"true\": 1` - the blank line is lost and the header becomes a doc comment",
+    "K27": "V2 -s: a brace-less chain broken after a colon whose innermost field has an attribute (`a: b:\\n\\tc: 1 @x()`) is expanded to nested braces on the first pass and collapsed to `a: b: {` on the second (not idempotent, tree unchanged)",
+    "K28": "V1 and V2: on rare layouts the formatter needs a second pass: the two outputs differ only in blanks, line breaks, commas or optional braces, the second pass is a fixed point and all texts have the same structural dump (effect-defined class without a specific trigger; the check bounds its frequency)",
     "W": "V1 and V2: comments written directly after an opening bracket, before a closing bracket, after an operator, after a colon or after a comma are moved to another node/position (witnesses corpus/C08/W-*.cue; these comment positions are excluded from the seed-dependent mutator)",
 }
 
@@ -262,7 +264,7 @@ def file_level(ctx, quick, stats):
         if quick:
             sizes = ["--stride", "8", "--nmut-det", "300", "--ngen-det", "120", "--nmut", "300", "--ngen", "120"]
         else:
-            sizes = ["--stride", "1", "--nmut-det", "8000", "--ngen-det", "3000", "--nmut", "6000", "--ngen", "2500"]
+            sizes = ["--stride", "1", "--nmut-det", "10000", "--ngen-det", "4000", "--nmut", "3000", "--ngen", "1200"]
         vlib.run([harness, "--mode", "all", "--repo", vlib.REPO, "--seed", str(ctx.seed), "--out", work] + sizes,
                  timeout=3000)
         runs.append(("all", work))
@@ -287,8 +289,8 @@ def file_level(ctx, quick, stats):
                            "replay": "bin/check C08 --replay <this file>   (or: build/harness-c08f --repo /repo --replay-cases <file with file_case> --show 1)"})
 
     for mode, d in runs:
-        cases = open(os.path.join(d, "cases.txt")).read().split("\n")[:-1]
-        impl = open(os.path.join(d, "impl.txt")).read().split("\n")[:-1]
+        cases = open(os.path.join(d, "cases.txt"), errors="replace").read().split("\n")[:-1]
+        impl = open(os.path.join(d, "impl.txt"), errors="replace").read().split("\n")[:-1]
         if len(cases) != len(impl):
             raise vlib.CheckFailure("c08f line count mismatch cases=%d impl=%d" % (len(cases), len(impl)))
         total += len(cases)
@@ -339,6 +341,16 @@ def file_level(ctx, quick, stats):
                       "node_kinds_seen", "comment_positions_seen", "malformed_stream", "mutation_classes", "generator"):
                 if k in st:
                     stats["file_" + k] = st[k]
+    # effect-defined classes must stay rare: a change that makes the layout need a second pass
+    # broadly is a violation of idempotence, not an instance of the background class
+    n28 = sum(v for k, v in outcome.items() if k.startswith("known K28"))
+    n4 = sum(v for k, v in outcome.items() if k.startswith("known K4 "))
+    stats["file_two_pass_counts"] = {"K28": n28, "K4": n4, "cases": total}
+    if not ctx.replay and (n28 > 3 + total // 1000 or n4 > 10 + total // 100):
+        nviol += 1
+        ctx.violation({"kind": "file-level", "what": "formatting is no longer idempotent in one pass on many inputs "
+                       "(two-pass convergence classes K28=%d K4=%d in %d cases)" % (n28, n4, total),
+                       "file_case": next((c for c, i in zip(cases, impl) if i.startswith("known K28") or i.startswith("known K4 ")), "")})
     stats["file_evaluations"] = total
     stats["file_distinct_nontrivial"] = nontrivial
     stats["file_violations"] = nviol
